@@ -16,7 +16,8 @@ package main
 //	                     resources give the same observation on generated facts; executing (incl. Retract) and removing
 //	                     rules in instance A leaves the dump of all mutable state of instance B and of the blueprint
 //	                     unchanged, and B then behaves like a fresh instance; library histories (build / remove / new
-//	                     instance / store+load) never make NewKnowledgeBaseInstance fail for a built or loaded knowledge base.
+//	                     instance / store+load, rejected resources with new expressions included) never make NewKnowledgeBaseInstance
+//	                     fail for a built or loaded knowledge base; a rejected resource leaves the blueprint's graph as it was.
 //	(c) concurrency      SUPPORTING EVIDENCE ONLY, not a proof obligation: N goroutines create instances from one library and
 //	                     execute them on their own facts, every result is compared with its sequential run; the part runs
 //	                     in a child process built with `go build -race` when that works in this sandbox.
@@ -101,7 +102,6 @@ func runEngOnLocal(kb *ast.KnowledgeBase, s EngScenario, fact *Fact) (obs EngObs
 	return
 }
 
-const keyC09D10a = "D10a-rejected-duplicate-breaks-instances"
 
 var c09AstTypes = map[string]bool{"RuleEntry": true, "WhenScope": true, "ThenScope": true, "ThenExpressionList": true, "ThenExpression": true,
 	"Assignment": true, "Expression": true, "ExpressionAtom": true, "Variable": true, "Constant": true, "FunctionCall": true,
@@ -285,6 +285,25 @@ func (g *kbGraph) shape() string {
 	return b.String()
 }
 
+// shape with the index lists read as sets (IndexVariables rebuilds them in map order)
+func (g *kbGraph) shapeSets() string {
+	var b strings.Builder
+	for _, n := range g.Nodes {
+		fmt.Fprintf(&b, "%d %s {%s} %v\n", n.ID, n.Kind, n.Label, n.Kids)
+	}
+	norm := func(es []idxEntry) []idxEntry {
+		var o []idxEntry
+		for _, e := range es {
+			ids := append([]int(nil), e.Ids...)
+			sort.Ints(ids)
+			o = append(o, idxEntry{e.Key, ids})
+		}
+		return o
+	}
+	fmt.Fprintf(&b, "roots %v\nexpr %v\natom %v\nvar %v\nxidx %v\naidx %v\n", g.Roots, g.WMExpr, g.WMAtom, g.WMVar, norm(g.XIdx), norm(g.AIdx))
+	return b.String()
+}
+
 func (g *kbGraph) mutable() string {
 	var b strings.Builder
 	for _, n := range g.Nodes {
@@ -367,7 +386,7 @@ func c09GallinaCase(id int, bp *kbGraph, ok bool, inst *kbGraph) string {
 type C09Scenario struct {
 	C12   C12Scenario `json:"c12"`
 	Extra string      `json:"extra,omitempty"` // name of the bracket template that was added
-	Dup   *Rule       `json:"dup,omitempty"`   // regression: a rejected duplicate built after the rules (D10a)
+	Rejected []*Rule  `json:"rejected,omitempty"` // a resource built after the rules that must be rejected (it holds a duplicate name) and rolled back
 }
 
 // expressions used bare and, later in clone order, inside brackets (the clone table must keep them one node)
@@ -419,6 +438,19 @@ func genC09(p *prng, i int) C09Scenario {
 		}
 		distinctSaliences(p, s.C12.Eng.Rules)
 	}
+	if i%2 == 1 && len(s.C12.Eng.Rules) > 0 {
+		// a resource that will be rejected: a rule of its own with new expressions, then a duplicate of an existing name
+		I64, U16 := eVar(vPath("F", "I64")), eVar(vPath("F", "U16"))
+		k := int64(40 + p.intn(50))
+		fresh := &Rule{Name: "ZzNew", Desc: "never stored", Sal: 77, When: mkBin("<", mkBin("+", I64, U16), cInt(k)),
+			Then: []*Stmt{assign(vPath("F", "U16"), "=", mkBin("+", U16, cInt(k)))}}
+		dup := &Rule{Name: pick(p, s.C12.Eng.Rules).Name, Desc: "dup", Sal: 78, When: mkBin(">", mkBin("*", I64, cInt(k)), cInt(k+1)),
+			Then: []*Stmt{assign(vPath("F", "I64"), "=", cInt(k))}}
+		s.Rejected = []*Rule{fresh, dup}
+		if p.chance(1, 3) {
+			s.Rejected = []*Rule{dup}
+		}
+	}
 	return s
 }
 
@@ -450,13 +482,25 @@ func runC09(s C09Scenario) (res c09Result) {
 		res.Skipped = true
 		return
 	}
-	if s.Dup != nil {
-		rb := newBuilderFor(lib)
-		if err := rb.BuildRuleFromResource(s.C12.KBName, s.C12.Version, bytesResource(s.Dup.grl())); err == nil {
-			fail("the duplicate rule %s was accepted", s.Dup.Name)
-		}
-	}
 	bp := lib.GetKnowledgeBase(s.C12.KBName, s.C12.Version)
+	if len(s.Rejected) > 0 {
+		// a rejected resource (new expressions, a new rule, a duplicate name) must leave the blueprint as it was: same rules,
+		// same working memory, no orphan node - instances are created from it below exactly as from a library that never saw it
+		before := exportKB(bp).shapeSets()
+		var txt strings.Builder
+		for _, r := range s.Rejected {
+			txt.WriteString(r.grl())
+		}
+		rb := newBuilderFor(lib)
+		if err := rb.BuildRuleFromResource(s.C12.KBName, s.C12.Version, bytesResource(txt.String())); err == nil {
+			fail("a resource with a duplicate rule name was accepted:\n%s", txt.String())
+		}
+		bp = lib.GetKnowledgeBase(s.C12.KBName, s.C12.Version)
+		if d := diff09(before, exportKB(bp).shapeSets()); d != "" {
+			fail("a rejected resource changed the library's knowledge base (rule entries / working memory): %s", d)
+		}
+		res.Stats["rejected resource built after the rules"]++
+	}
 	res.BP = exportKB(bp)
 	bpBefore := res.BP.mutable()
 	for _, b := range res.BP.Bad {
@@ -670,7 +714,7 @@ func c09D10aRegression() C09Scenario {
 	s.C12.Eng = EngScenario{MaxCycle: 10, CancelAt: -1, Listeners: 1, Fact: baseFact(), Rules: []*Rule{
 		{Name: "R1", Desc: "one", Sal: 1, When: mkBin("<", I64, cInt(2)), Then: []*Stmt{assign(vPath("F", "I64"), "+=", cInt(1))}}}}
 	s.C12.Facts = []*Fact{baseFact()}
-	s.Dup = &Rule{Name: "R1", Desc: "dup", Sal: 2, When: mkBin("<", I64, cInt(7)), Then: []*Stmt{assign(vPath("F", "I64"), "+=", cInt(3))}}
+	s.Rejected = []*Rule{{Name: "R1", Desc: "dup", Sal: 2, When: mkBin("<", I64, cInt(7)), Then: []*Stmt{assign(vPath("F", "I64"), "+=", cInt(3))}}}
 	return s
 }
 
@@ -684,14 +728,15 @@ func runC09Prop(seed uint64, tier string, out string) error {
 	var cases []string
 	var index []interface{}
 	distinct := map[string]bool{}
-	// known finding D10a: orphan nodes of a rejected rule make the clone fail; the model agrees (clone_orphan_fails)
+	// former witness of D10a (fixed by engine commit 4ed034e: the rejected rule's nodes no longer stay in the working memory):
+	// runs first on every check and must pass; its graph goes to the model like any other
 	{
 		s := c09D10aRegression()
 		r := runC09(s)
 		rep.Evaluations++
-		rep.count("regression scenarios")
+		rep.count("regression scenarios of fixed findings")
 		if len(r.Fails) > 0 {
-			rep.failKey(keyC09D10a, r.Fails[0], c09CaseRec{Scenario: s})
+			rep.fail(r.Fails[0], c09CaseRec{Scenario: s})
 		}
 		if r.BP != nil {
 			index = append(index, c09CaseRec{Scenario: s})
@@ -756,7 +801,7 @@ func runC09Prop(seed uint64, tier string, out string) error {
 	rep.Notes = append(rep.Notes, fmt.Sprintf("concurrency (supporting evidence, not an obligation): %d goroutines, %d concurrent create+execute runs compared with their sequential runs, race detector=%v %s", rr.Goroutines, rr.Runs, rr.Race, rr.Note))
 	rep.Cases = len(cases)
 	rep.DistinctNontrivial = len(distinct)
-	rep.Rule = "generated knowledge bases (the C12 generator: random typed rule sets and templates with every node kind, in one or several resources, plus templates using an expression bare and bracketed); per knowledge base three instances: reflection walk of blueprint and instances (isomorphism along the canonical traversal, no shared mutable object), behaviour of instances against the blueprint of an identically built library on 2-3 fact sets, isolation dumps around execute / retract / remove in one instance; library histories of the C16 generator; non-trivial = at least two rules, distinct by rule text"
+	rep.Rule = "generated knowledge bases (the C12 generator: random typed rule sets and templates with every node kind, in one or several resources, plus templates using an expression bare and bracketed; every second knowledge base then receives a resource that is rejected - a new rule and a duplicate name, all expressions new - and must be left exactly as it was); per knowledge base three instances: reflection walk of blueprint and instances (isomorphism along the canonical traversal, no shared mutable object), behaviour of instances against the blueprint of an identically built library on 2-3 fact sets, isolation dumps around execute / retract / remove in one instance; library histories of the C16 generator; non-trivial = at least two rules, distinct by rule text"
 	if err := writeShards(out, "From Grule Require Import Base Clone CorrClone.", "c09_mismatches", "c09_case", cases, 16); err != nil {
 		return err
 	}
